@@ -122,9 +122,33 @@ def r2_mode_reaches_solver(ctx, chk, rule="C12.2"):
     if splat:
         d = splat[0]
         inner = d[2][0] if d[0] == "call" and d[1] in ("copy.deepcopy", "copy.copy", "dict") and d[2] else d
+        flagp = shared.solver_names(ctx)["flag_param"]
+        if inner[0] == "ite" and any(x == mode for x in C02._sub(inner[1])):
+            # the flag is written under a condition on the mode itself: judged mode by mode
+            from ..symx import subst, deep_simp
+            per = {}
+            for mv in (True, False):
+                t_ = deep_simp(subst(inner, lambda x: C(mv) if x == mode else None))
+                val = "absent"
+                while t_[0] == "setitem":
+                    if t_[2] == C(flagp):
+                        val = t_[3]
+                        break
+                    t_ = t_[1]
+                per[mv] = val
+            if all(per[mv] == C(mv) for mv in per):
+                chk.ok(rule, s.f.where(Li.node), "the game handed to StochasticGame carries prune_states = True in the pruned pass and False in the other (written per mode)")
+                return
+            wrong = [mv for mv in per if per[mv] != C(mv)]
+            if all(per[mv] == "absent" or is_const(per[mv]) for mv in wrong):
+                mv = wrong[0]
+                chk.violation(rule, s.f.where(Li.node), "in the %s pass the description is handed to the solver %s: what the game's own `%s` entry happens to hold decides the mode "
+                              "(a file that carries the key, a description listed twice, a second run over the same dictionary - the previous pass left False behind)" % (
+                                  "pruned" if mv else "unpruned", "without `%s` being set" % flagp if per[mv] == "absent" else "with %s = %s" % (flagp, show(per[mv])), flagp),
+                              expected="game['%s'] = <mode> in every pass" % flagp, found=show(inner)[:140], construct="run_games mode not set per pass")
+                return
         # inner = setitem(game, 'prune_states', mode)
         t = inner
-        flagp = shared.solver_names(ctx)["flag_param"]
         while t[0] == "setitem":
             if t[2] == C(flagp):
                 ok = t[3] == mode
